@@ -3,7 +3,8 @@ import Mamba.Lemmas.CanonFInv
 # `NewOrderedPartition` and `(*CanonicalOrderedPartition).Reset` of `Model/CanonF.lean`
 
 * `classInner_spec`, `classLoop_spec`, `identLoop_spec` — total correctness of the loops (index-level description of the
-  written slices; everything outside the written range is kept).
+  written slices; everything outside the written range is kept). `classLoop` sorts every class inside `order`
+  (`sortNat`), so the resulting order is `(cls.map sortNat).flatten`; `binsToCheck` is `[0, …, len(binDividers) - 1]`.
 * `InitSpec n vc op` — the observable initial state (`ordL`, `bdL` = vertex order / dividers determined by the classes);
   `new_spec`, `reset_spec` show that both functions establish it; `InitSpec.partInv` derives `PartInv`, `AgeInv`.
 * the interface theorems `newOrderedPartition_inv`, `reset_eq_new`, `reset_inv`, `reset_panics_small_n/m`.
@@ -145,15 +146,42 @@ theorem classInner_spec (i : Nat) : ∀ (c : List Nat) (order inCell : Sl Nat) (
         · simp [h2]
         · simp [h1, h2]
 
+/-! sorting a class -/
+
+theorem length_sortNat (l : List Nat) : (sortNat l).length = l.length := List.length_mergeSort l
+
+theorem sortNat_perm (l : List Nat) : (sortNat l).Perm l := List.mergeSort_perm l _
+
+theorem mem_sortNat {l : List Nat} {v : Nat} : v ∈ sortNat l ↔ v ∈ l := (sortNat_perm l).mem_iff
+
+theorem flatten_sorted_perm (cs : List (List Nat)) : (cs.map sortNat).flatten.Perm cs.flatten := by
+  induction cs with
+  | nil => simp
+  | cons c cs ih => simp only [List.map_cons, List.flatten_cons]; exact (sortNat_perm c).append ih
+
+theorem length_flatten_sorted (cs : List (List Nat)) : (cs.map sortNat).flatten.length = cs.flatten.length :=
+  (flatten_sorted_perm cs).length_eq
+
+theorem extract_toList_eq (a : Array Nat) (lo : Nat) (c : List Nat) (h : lo + c.length ≤ a.size)
+    (hd : ∀ p, lo ≤ p → p < lo + c.length → a[p]? = c[p - lo]?) : (a.extract lo (lo + c.length)).toList = c := by
+  apply List.ext_getElem?
+  intro i
+  rw [Array.getElem?_toList, Array.getElem?_extract]
+  by_cases hi : i < c.length
+  · rw [if_pos (by omega), hd (lo + i) (by omega) (by omega)]
+    congr 1; omega
+  · rw [if_neg (by omega)]; symm; apply List.getElem?_eq_none; omega
+
 theorem classLoop_spec (n : Nat) : ∀ (cs : List (List Nat)) (i index : Nat) (order inCell bd : Sl Nat),
     order.WF → inCell.WF → bd.WF → order.len = n → inCell.len = n → index + cs.flatten.length ≤ n →
     (∀ v ∈ cs.flatten, v < n) → cs.flatten.Nodup → i + cs.length ≤ bd.len →
     ∃ o' ic' bd', classLoop cs i (order, inCell, bd, index) = .ok (o', ic', bd', index + cs.flatten.length) ∧
       o'.len = n ∧ o'.data.size = order.data.size ∧ ic'.len = n ∧ ic'.data.size = inCell.data.size ∧
       bd'.len = bd.len ∧ bd'.data.size = bd.data.size ∧
-      (∀ p, o'.data[p]? = if index ≤ p ∧ p < index + cs.flatten.length then cs.flatten[p - index]? else order.data[p]?) ∧
+      (∀ p, o'.data[p]? = if index ≤ p ∧ p < index + cs.flatten.length then (cs.map sortNat).flatten[p - index]?
+        else order.data[p]?) ∧
       (∀ v, v ∉ cs.flatten → ic'.data[v]? = inCell.data[v]?) ∧
-      (∀ q v, cs.flatten[q]? = some v →
+      (∀ q v, (cs.map sortNat).flatten[q]? = some v →
         ic'.data[v]? = some (i + binIdx (psums index (cs.map List.length)) (index + q))) ∧
       (∀ j, bd'.data[j]? = if i ≤ j ∧ j < i + cs.length then (psums index (cs.map List.length))[j - i]? else bd.data[j]?) := by
   intro cs
@@ -174,19 +202,40 @@ theorem classLoop_spec (n : Nat) : ∀ (cs : List (List Nat)) (i index : Nat) (o
     simp only [List.length_cons] at hbl
     obtain ⟨o1, ic1, hr1, l1, z1, l2, z2, d1, d2⟩ := classInner_spec i c order inCell index hwo hwi (by omega)
       (fun v hv' => by rw [hi]; exact hv v (List.mem_append_left _ hv'))
-    have hwo1 : o1.WF := by unfold Sl.WF at *; omega
+    have hwo0 : order.len ≤ order.data.size := hwo
     have hwi1 : ic1.WF := by unfold Sl.WF at *; omega
+    -- the sort
+    have hext : (o1.data.extract index (index + c.length)).toList = c :=
+      extract_toList_eq _ _ _ (by omega) (fun p h1 h2 => by rw [d1, if_pos ⟨h1, h2⟩])
+    have hsort : o1.sortRange index (index + c.length) =
+        .ok ⟨Sl.writeList o1.data index (sortNat c), o1.len⟩ := by
+      rw [Sl.sortRange, if_pos ⟨by omega, by omega⟩, hext]
+    have hwo2 : (⟨Sl.writeList o1.data index (sortNat c), o1.len⟩ : Sl Nat).WF := by
+      show o1.len ≤ (Sl.writeList o1.data index (sortNat c)).size
+      rw [Sl.size_writeList]; omega
+    have d1' : ∀ p, (Sl.writeList o1.data index (sortNat c))[p]? =
+        if index ≤ p ∧ p < index + c.length then (sortNat c)[p - index]? else order.data[p]? := by
+      intro p
+      rw [Sl.getElem?_writeList, length_sortNat, d1]
+      by_cases h : index ≤ p ∧ p < index + c.length
+      · have h' : index ≤ p ∧ p < index + c.length ∧ p < o1.data.size := ⟨h.1, h.2, by omega⟩
+        simp only [if_pos h, if_pos h']
+      · have h' : ¬ (index ≤ p ∧ p < index + c.length ∧ p < o1.data.size) := by omega
+        simp only [if_neg h, if_neg h']
     have hs := Sl.set_ok_of_lt hwb (show i < bd.len by omega) (index + c.length)
-    obtain ⟨o', ic', bd', hr, l3, z3, l4, z4, l5, z5, e1, e2, e3, e4⟩ := ih (i + 1) (index + c.length) o1 ic1
-      ⟨bd.data.setIfInBounds i (index + c.length), bd.len⟩ hwo1 hwi1 (Sl.set_wf hwb hs) (by omega) (by omega) (by omega)
-      (fun v hv' => hv v (List.mem_append_right _ hv')) hnd2 (by simp only; omega)
+    obtain ⟨o', ic', bd', hr, l3, z3, l4, z4, l5, z5, e1, e2, e3, e4⟩ := ih (i + 1) (index + c.length)
+      ⟨Sl.writeList o1.data index (sortNat c), o1.len⟩ ic1
+      ⟨bd.data.setIfInBounds i (index + c.length), bd.len⟩ hwo2 hwi1 (Sl.set_wf hwb hs) (by simp only; omega) (by omega)
+      (by omega) (fun v hv' => hv v (List.mem_append_right _ hv')) hnd2 (by simp only; omega)
+    simp only [Sl.size_writeList] at z3
+    have hlc : (sortNat c).length = c.length := length_sortNat c
     refine ⟨o', ic', bd', ?_, l3, by omega, l4, by omega, l5, ?_, ?_, ?_, ?_, ?_⟩
     · rw [classLoop]
-      simp only [hr1, hs]
+      simp only [hr1, hsort, hs]
       rw [hr, List.flatten_cons, List.length_append, Nat.add_assoc]
     · rw [z5]; simp
     · intro p
-      rw [e1, d1, List.flatten_cons, List.length_append, List.getElem?_append]
+      rw [e1, d1', List.flatten_cons, List.length_append, List.map_cons, List.flatten_cons, List.getElem?_append, hlc]
       by_cases h1 : index + c.length ≤ p ∧ p < index + c.length + cs.flatten.length
       · rw [if_pos h1, if_pos (by omega), if_neg (by omega)]
         congr 1; omega
@@ -198,11 +247,11 @@ theorem classLoop_spec (n : Nat) : ∀ (cs : List (List Nat)) (i index : Nat) (o
       rw [List.flatten_cons, List.mem_append, not_or] at hvn
       rw [e2 v hvn.2, d2, if_neg hvn.1]
     · intro q v hq
-      rw [List.flatten_cons, List.getElem?_append] at hq
+      rw [List.map_cons, List.flatten_cons, List.getElem?_append, hlc] at hq
       rw [List.map_cons, psums, binIdx_cons]
       by_cases h1 : q < c.length
       · rw [if_pos h1] at hq
-        have hvc : v ∈ c := List.mem_of_getElem? hq
+        have hvc : v ∈ c := mem_sortNat.1 (List.mem_of_getElem? hq)
         have hvn : v ∉ cs.flatten := fun h => hdisj v hvc v h rfl
         rw [e2 v hvn, d2, if_pos hvc, if_neg (by omega),
           binIdx_eq_zero _ _ (fun d hd => by have := psums_ge _ _ d hd; omega)]
@@ -249,7 +298,7 @@ theorem identLoop_spec (n : Nat) (order : Sl Nat) (hw : order.WF) (hn : n ≤ or
 /-- the initial vertex order -/
 def ordL (n : Nat) : Classes → List Nat
   | none => List.range n
-  | some cls => cls.flatten
+  | some cls => (cls.map sortNat).flatten
 
 /-- the initial dividers -/
 def bdL (n : Nat) : Classes → List Nat
@@ -267,7 +316,7 @@ structure InitSpec (n : Nat) (vc : Classes) (op : OP) : Prop where
   order : op.order.toList = ordL n vc
   bd : op.binDividers.toList = bdL n vc
   ages : op.binAges.toList = List.replicate (bdL n vc).length 0
-  btc : op.binsToCheck.toList = [0]
+  btc : op.binsToCheck.toList = (List.range (bdL n vc).length).map Int.ofNat
   value : op.value.len = 0
   age : op.age = 0
   spl : op.spl = 0
@@ -288,8 +337,9 @@ theorem classLoop_init {n : Nat} {cls : List (List Nat)} (hn : 0 < n) (hc : Clas
     ∃ o' ic' bd' idx, classLoop cls 0 (⟨od, n⟩, ⟨ic, n⟩, ⟨bd, cls.length⟩, 0) = .ok (o', ic', bd', idx) ∧
       o'.len = n ∧ o'.data.size = od.size ∧ ic'.len = n ∧ ic'.data.size = ic.size ∧
       bd'.len = cls.length ∧ bd'.data.size = bd.size ∧
-      o'.toList = cls.flatten ∧ bd'.toList = psums 0 (cls.map List.length) ∧
-      (∀ p v, cls.flatten[p]? = some v → ic'.toList[v]? = some (binIdx (psums 0 (cls.map List.length)) p)) := by
+      o'.toList = (cls.map sortNat).flatten ∧ bd'.toList = psums 0 (cls.map List.length) ∧
+      (∀ p v, (cls.map sortNat).flatten[p]? = some v →
+        ic'.toList[v]? = some (binIdx (psums 0 (cls.map List.length)) p)) := by
   obtain ⟨hperm, hne⟩ := hc
   have hfl : cls.flatten.length = n := by rw [hperm.length_eq]; simp
   have hcl : cls.length ≤ n := by rw [← hfl]; exact length_le_flatten cls hne
@@ -303,14 +353,14 @@ theorem classLoop_init {n : Nat} {cls : List (List Nat)} (hn : 0 < n) (hc : Clas
     h1 h2 (show cls.length ≤ bd.size by omega) rfl rfl (by omega) hlt hnd (by simp)
   simp only at l1 z1 l2 z2 l3 z3 e1 e4
   refine ⟨hcl, hpos, o', ic', bd', _, hr, l1, z1, l2, z2, l3, z3, ?_, ?_, ?_⟩
-  · apply Sl.toList_eq_of _ _ (by omega)
+  · apply Sl.toList_eq_of _ _ (by rw [length_flatten_sorted]; omega)
     intro i hi
     rw [e1, if_pos (by omega)]; simp
   · apply Sl.toList_eq_of _ _ (by simp; omega)
     intro i hi
     rw [e4, if_pos (by omega)]; simp
   · intro p v hp
-    have hv : v < n := hlt v (List.mem_of_getElem? hp)
+    have hv : v < n := hlt v ((flatten_sorted_perm cls).mem_iff.1 (List.mem_of_getElem? hp))
     rw [Sl.getElem?_toList, if_pos (by omega), e3 p v hp]
     simp
 
@@ -321,7 +371,7 @@ theorem initSpec_classesFacts {n : Nat} {vc : Classes} (hn : 0 < n) (hc : Classe
   | some cls =>
     obtain ⟨hperm, hne⟩ := hc
     have hfl : cls.flatten.length = n := by rw [hperm.length_eq]; simp
-    refine ⟨hperm, ?_, ?_⟩
+    refine ⟨(flatten_sorted_perm cls).trans hperm, ?_, ?_⟩
     · apply psums_sorted
       intro x hx
       obtain ⟨c, hc, rfl⟩ := List.mem_map.1 hx
@@ -330,12 +380,20 @@ theorem initSpec_classesFacts {n : Nat} {vc : Classes} (hn : 0 < n) (hc : Classe
       rw [psums_getLast?, ← List.length_flatten, hfl]; simp
       intro h; simp at h; subst h; simp at hfl; omega
 
+theorem allBins_size (b : Sl Int) : (allBins b).data.size = b.data.size := by simp [allBins]
+
+theorem allBins_data (b : Sl Int) (hw : b.len ≤ b.data.size) (i : Nat) (hi : i < b.len) :
+    (allBins b).data[i]? = some (i : Int) := by
+  have h2 : i < b.data.size := by omega
+  simp only [allBins]
+  rw [Array.getElem?_mapIdx, Array.getElem?_eq_getElem h2, Option.map_some, if_pos hi]
+
 theorem InitSpec.build {n : Nat} {vc : Classes} (o ic bd : Sl Nat) (ages btc : Sl Int) (val : Sl Nat)
     (ho : o.len = n) (hoz : n ≤ o.data.size) (hi : ic.len = n) (hiz : n ≤ ic.data.size)
     (hbw : bd.WF) (hol : o.toList = ordL n vc) (hbl : bd.toList = bdL n vc)
     (hic : ∀ p v, (ordL n vc)[p]? = some v → ic.toList[v]? = some (binIdx (bdL n vc) p))
     (hal : ages.len = bd.len) (haz : ages.WF) (had : ∀ i, i < ages.len → ages.data[i]? = some 0)
-    (hbtl : btc.len = 1) (hbtd : btc.data[0]? = some 0) (hv : val.len = 0) :
+    (hbtl : btc.len = bd.len) (_hbtz : btc.WF) (hbtd : ∀ i, i < btc.len → btc.data[i]? = some (i : Int)) (hv : val.len = 0) :
     InitSpec n vc { order := o, binDividers := bd, binAges := ages, binsToCheck := btc, age := 0, value := val,
                     spl := 0, inCell := ic } := by
   have hbl' : (bdL n vc).length = bd.len := by rw [← hbl, Sl.length_toList _ hbw]
@@ -347,8 +405,7 @@ theorem InitSpec.build {n : Nat} {vc : Classes} (o ic bd : Sl Nat) (ages btc : S
   · apply Sl.toList_eq_of _ _ (by simp; omega)
     intro i hi'
     simp only at hi' ⊢
-    have : i = 0 := by omega
-    subst this; simpa using hbtd
+    rw [hbtd i hi', List.getElem?_map, List.getElem?_range (by omega)]; rfl
 
 theorem new_spec {n m : Nat} {vc : Classes} (hn : 0 < n) (hc : ClassesOK n vc) :
     ∃ op, newOrderedPartition n m vc = .ok (some op) ∧ InitSpec n vc op ∧
@@ -362,7 +419,7 @@ theorem new_spec {n m : Nat} {vc : Classes} (hn : 0 < n) (hc : ClassesOK n vc) :
     have hset : (⟨Array.replicate n 0, 1⟩ : Sl Nat).set 0 n = .ok ⟨(Array.replicate n 0).setIfInBounds 0 n, 1⟩ := by
       simp [Sl.set, hn]
     refine ⟨{ order := o', binDividers := ⟨(Array.replicate n 0).setIfInBounds 0 n, 1⟩, binAges := ⟨Array.replicate n 0, 1⟩,
-              binsToCheck := ⟨Array.replicate n 0, 1⟩, age := 0, value := ⟨Array.replicate m 0, 0⟩, spl := 0,
+              binsToCheck := allBins ⟨Array.replicate n 0, 1⟩, age := 0, value := ⟨Array.replicate m 0, 0⟩, spl := 0,
               inCell := ⟨Array.replicate n 0, n⟩ }, ?_, ?_, ?_⟩
     · simp only [newOrderedPartition, if_neg hn0, Sl.mk', hr, Sl.reslice, Array.size_replicate,
         if_pos (show 1 ≤ n by omega), hset]
@@ -392,15 +449,17 @@ theorem new_spec {n m : Nat} {vc : Classes} (hn : 0 < n) (hc : ClassesOK n vc) :
       · simp [Sl.WF]; omega
       · intro i hi; simp only at hi ⊢; rw [Array.getElem?_replicate, if_pos (by omega)]
       · rfl
-      · simp [hn]
+      · show 1 ≤ (allBins _).data.size
+        rw [allBins_size]; simp; omega
+      · intro i hi; exact allBins_data _ (by simp; omega) i hi
       · rfl
-    · simp [z1]
+    · simp [z1, allBins_size]
   | some cls =>
     obtain ⟨hcl, hpos, o', ic', bd', idx, hr, l1, z1, l2, z2, l3, z3, e1, e2, e3⟩ :=
       classLoop_init hn hc (Array.replicate n 0) (Array.replicate n 0) (Array.replicate n 0) (by simp) (by simp) (by simp)
     simp only [Array.size_replicate] at z1 z2 z3
     refine ⟨{ order := o', binDividers := bd', binAges := ⟨Array.replicate n 0, bd'.len⟩,
-              binsToCheck := ⟨Array.replicate n 0, 1⟩, age := 0, value := ⟨Array.replicate m 0, 0⟩, spl := 0,
+              binsToCheck := allBins ⟨Array.replicate n 0, bd'.len⟩, age := 0, value := ⟨Array.replicate m 0, 0⟩, spl := 0,
               inCell := ic' }, ?_, ?_, ?_⟩
     · simp only [newOrderedPartition, if_neg hn0, Sl.mk', Sl.reslice, Array.size_replicate, if_pos hcl, hr]
     · apply InitSpec.build
@@ -416,20 +475,20 @@ theorem new_spec {n m : Nat} {vc : Classes} (hn : 0 < n) (hc : ClassesOK n vc) :
       · simp [Sl.WF]; omega
       · intro i hi; simp only at hi ⊢; rw [Array.getElem?_replicate, if_pos (by omega)]
       · rfl
-      · simp [hn]
+      · show bd'.len ≤ (allBins _).data.size
+        rw [allBins_size]; simp; omega
+      · intro i hi; exact allBins_data _ (by simp; omega) i hi
       · rfl
-    · simp [z1, z2, z3]
+    · simp [z1, z2, z3, allBins_size]
 
 theorem reset_spec {n m : Nat} {vc : Classes} (op : OP) (hn : 0 < n) (hc : ClassesOK n vc)
     (c1 : n ≤ op.order.data.size) (c2 : n ≤ op.inCell.data.size) (c3 : n ≤ op.binDividers.data.size)
-    (c4 : n ≤ op.binAges.data.size) (c5 : 1 ≤ op.binsToCheck.data.size) (c6 : m ≤ op.value.data.size) :
+    (c4 : n ≤ op.binAges.data.size) (c5 : n ≤ op.binsToCheck.data.size) (c6 : m ≤ op.value.data.size) :
     ∃ opR, reset op n m vc = .ok opR ∧ InitSpec n vc opR ∧
       opR.order.data.size = op.order.data.size ∧ opR.inCell.data.size = op.inCell.data.size ∧
       opR.binDividers.data.size = op.binDividers.data.size ∧ opR.binAges.data.size = op.binAges.data.size ∧
       opR.binsToCheck.data.size = op.binsToCheck.data.size ∧ opR.value.data = op.value.data := by
   have hn' : n > 0 := hn
-  have hset2 : (⟨op.binsToCheck.data, 1⟩ : Sl Int).set 0 0 = .ok ⟨op.binsToCheck.data.setIfInBounds 0 0, 1⟩ :=
-    Sl.set_ok_of_lt (s := ⟨op.binsToCheck.data, 1⟩) (show 1 ≤ op.binsToCheck.data.size by omega) (Nat.zero_lt_one) 0
   cases vc with
   | none =>
     obtain ⟨o', hr, l1, z1, d1⟩ := identLoop_spec n ⟨op.order.data, n⟩ c1 (Nat.le_refl _)
@@ -438,11 +497,11 @@ theorem reset_spec {n m : Nat} {vc : Classes} (op : OP) (hn : 0 < n) (hc : Class
       Sl.set_ok_of_lt (s := ⟨op.binDividers.data, 1⟩) (show 1 ≤ op.binDividers.data.size by omega) (Nat.zero_lt_one) n
     refine ⟨{ order := o', binDividers := ⟨op.binDividers.data.setIfInBounds 0 n, 1⟩,
               binAges := ⟨op.binAges.data.mapIdx (fun i v => if i < 1 then 0 else v), 1⟩,
-              binsToCheck := ⟨op.binsToCheck.data.setIfInBounds 0 0, 1⟩, age := 0, value := ⟨op.value.data, 0⟩, spl := 0,
+              binsToCheck := allBins ⟨op.binsToCheck.data, 1⟩, age := 0, value := ⟨op.value.data, 0⟩, spl := 0,
               inCell := (⟨op.inCell.data, n⟩ : Sl Nat).fill0 }, ?_, ?_, ?_⟩
     · simp only [reset, Sl.cap, if_neg (Nat.not_lt.2 c1), if_neg (Nat.not_lt.2 c6), Sl.reslice, if_pos c1, if_pos c2,
         hr, if_pos hn', if_pos (show 1 ≤ op.binDividers.data.size by omega), hset,
-        if_pos (show 1 ≤ op.binAges.data.size by omega), if_pos c5, hset2]
+        if_pos (show 1 ≤ op.binAges.data.size by omega), if_pos (show 1 ≤ op.binsToCheck.data.size by omega)]
     · apply InitSpec.build
       · exact l1
       · omega
@@ -476,20 +535,21 @@ theorem reset_spec {n m : Nat} {vc : Classes} (op : OP) (hn : 0 < n) (hc : Class
         have h2 : i < op.binAges.data.size := by omega
         rw [Array.getElem?_mapIdx, Array.getElem?_eq_getElem h2, Option.map_some, if_pos hi]
       · rfl
-      · have : 0 < op.binsToCheck.data.size := by omega
-        simp [this]
+      · show 1 ≤ (allBins _).data.size
+        rw [allBins_size]; show 1 ≤ op.binsToCheck.data.size; omega
+      · intro i hi; exact allBins_data _ (show 1 ≤ op.binsToCheck.data.size by omega) i hi
       · rfl
-    · simp [z1, Sl.fill0]
+    · simp [z1, Sl.fill0, allBins_size]
   | some cls =>
     obtain ⟨hcl, hpos, o', ic', bd', idx, hr, l1, z1, l2, z2, l3, z3, e1, e2, e3⟩ :=
       classLoop_init hn hc op.order.data op.inCell.data op.binDividers.data c1 c2 c3
     refine ⟨{ order := o', binDividers := bd',
               binAges := ⟨op.binAges.data.mapIdx (fun i v => if i < bd'.len then 0 else v), bd'.len⟩,
-              binsToCheck := ⟨op.binsToCheck.data.setIfInBounds 0 0, 1⟩, age := 0, value := ⟨op.value.data, 0⟩, spl := 0,
+              binsToCheck := allBins ⟨op.binsToCheck.data, bd'.len⟩, age := 0, value := ⟨op.value.data, 0⟩, spl := 0,
               inCell := ic' }, ?_, ?_, ?_⟩
     · simp only [reset, Sl.cap, if_neg (Nat.not_lt.2 c1), if_neg (Nat.not_lt.2 c6), Sl.reslice, if_pos c1, if_pos c2,
         if_pos (show cls.length ≤ op.binDividers.data.size by omega), hr, if_pos hn',
-        if_pos (show bd'.len ≤ op.binAges.data.size by omega), if_pos c5, hset2]
+        if_pos (show bd'.len ≤ op.binAges.data.size by omega), if_pos (show bd'.len ≤ op.binsToCheck.data.size by omega)]
     · apply InitSpec.build
       · exact l1
       · omega
@@ -506,10 +566,11 @@ theorem reset_spec {n m : Nat} {vc : Classes} (op : OP) (hn : 0 < n) (hc : Class
         have h2 : i < op.binAges.data.size := by omega
         rw [Array.getElem?_mapIdx, Array.getElem?_eq_getElem h2, Option.map_some, if_pos hi]
       · rfl
-      · have : 0 < op.binsToCheck.data.size := by omega
-        simp [this]
+      · show bd'.len ≤ (allBins _).data.size
+        rw [allBins_size]; show bd'.len ≤ op.binsToCheck.data.size; omega
+      · intro i hi; exact allBins_data _ (show bd'.len ≤ op.binsToCheck.data.size by omega) i hi
       · rfl
-    · simp [z1, z2, z3]
+    · simp [z1, z2, z3, allBins_size]
 
 theorem InitSpec.partInv {n : Nat} {vc : Classes} {op : OP} (hn : 0 < n) (hc : ClassesOK n vc) (h : InitSpec n vc op) :
     PartInv n op ∧ AgeInv op := by
@@ -543,8 +604,12 @@ theorem InitSpec.inCell_eq {n : Nat} {vc : Classes} {op1 op2 : OP} (hn : 0 < n) 
   · rw [Sl.getElem?_toList, Sl.getElem?_toList, if_neg (by rw [h1.lenInCell]; exact hv),
       if_neg (by rw [h2.lenInCell]; exact hv)]
 
+theorem InitSpec.btc' {n : Nat} {vc : Classes} {op : OP} (h : InitSpec n vc op) :
+    op.binsToCheck.toList = (List.range op.binDividers.len).map Int.ofNat := by
+  rw [h.btc, ← Sl.length_toList _ h.wfBd, h.bd]
+
 theorem ordL_eq (n : Nat) (vc : Classes) :
-    ordL n vc = (match vc with | none => List.range n | some cls => cls.flatten) := by
+    ordL n vc = (match vc with | none => List.range n | some cls => (cls.map sortNat).flatten) := by
   cases vc <;> rfl
 
 theorem bdL_eq (n : Nat) (vc : Classes) :
@@ -557,20 +622,21 @@ theorem bdL_eq (n : Nat) (vc : Classes) :
 
 theorem newOrderedPartition_inv {n m : Nat} {vc : Classes} (hn : 0 < n) (hc : ClassesOK n vc) :
     ∃ op, newOrderedPartition n m vc = .ok (some op) ∧ PartInv n op ∧ AgeInv op ∧ op.age = 0 ∧ op.spl = 0 ∧
-      op.value.len = 0 ∧ op.value.data.size = m ∧ op.binsToCheck.toList = [0] ∧
+      op.value.len = 0 ∧ op.value.data.size = m ∧
+      op.binsToCheck.toList = (List.range op.binDividers.len).map Int.ofNat ∧
       op.order.data.size = n ∧ op.inCell.data.size = n ∧ op.binDividers.data.size = n ∧ op.binAges.data.size = n ∧
       op.binsToCheck.data.size = n ∧
-      op.order.toList = (match vc with | none => List.range n | some cls => cls.flatten) ∧
+      op.order.toList = (match vc with | none => List.range n | some cls => (cls.map sortNat).flatten) ∧
       op.binDividers.toList = (match vc with | none => [n] | some cls => (cls.map List.length).scanl (· + ·) 0 |>.tail) := by
   obtain ⟨op, hr, hs, z1, z2, z3, z4, z5, z6⟩ := new_spec (m := m) hn hc
   obtain ⟨hp, ha⟩ := hs.partInv hn hc
-  refine ⟨op, hr, hp, ha, hs.age, hs.spl, hs.value, z6, hs.btc, z1, z2, z3, z4, z5, ?_, ?_⟩
+  refine ⟨op, hr, hp, ha, hs.age, hs.spl, hs.value, z6, hs.btc', z1, z2, z3, z4, z5, ?_, ?_⟩
   · rw [hs.order]; cases vc <;> rfl
   · rw [hs.bd, bdL_eq]; cases vc <;> rfl
 
 theorem reset_eq_new {n m : Nat} {vc : Classes} (op : OP) (hn : 0 < n) (hc : ClassesOK n vc)
     (c1 : n ≤ op.order.data.size) (c2 : n ≤ op.inCell.data.size) (c3 : n ≤ op.binDividers.data.size)
-    (c4 : n ≤ op.binAges.data.size) (c5 : 1 ≤ op.binsToCheck.data.size) (c6 : m ≤ op.value.data.size) :
+    (c4 : n ≤ op.binAges.data.size) (c5 : n ≤ op.binsToCheck.data.size) (c6 : m ≤ op.value.data.size) :
     ∃ opN opR, newOrderedPartition n m vc = .ok (some opN) ∧ reset op n m vc = .ok opR ∧
       opR.order.toList = opN.order.toList ∧ opR.binDividers.toList = opN.binDividers.toList ∧
       opR.binAges.toList = opN.binAges.toList ∧ opR.binsToCheck.toList = opN.binsToCheck.toList ∧
@@ -588,9 +654,9 @@ theorem reset_eq_new {n m : Nat} {vc : Classes} (op : OP) (hn : 0 < n) (hc : Cla
 
 /-! non-vacuity: a partition value with stale contents and arbitrary lengths, reset to `n = 3`, `m = 2` -/
 
-/-- stale storage: capacities 4, 3, 3, 2, 3, 4 -/
+/-- stale storage: capacities 4, 3, 3, 3, 3, 4 -/
 def staleOP : OP :=
-  { order := ⟨#[9, 9, 9, 9], 1⟩, binDividers := ⟨#[7, 7, 7], 3⟩, binAges := ⟨#[5, 5, 5], 2⟩, binsToCheck := ⟨#[4, 4], 2⟩,
+  { order := ⟨#[9, 9, 9, 9], 1⟩, binDividers := ⟨#[7, 7, 7], 3⟩, binAges := ⟨#[5, 5, 5], 2⟩, binsToCheck := ⟨#[4, 4, 4], 2⟩,
     age := 17, value := ⟨#[8, 8, 8], 3⟩, spl := 2, inCell := ⟨#[6, 6, 6, 6], 4⟩ }
 
 /-- the observable state -/
@@ -598,28 +664,33 @@ def obs (op : OP) : List Nat × List Nat × List Int × List Int × List Nat × 
   (op.order.toList, op.binDividers.toList, op.binAges.toList, op.binsToCheck.toList, op.value.toList, op.age, op.spl,
     op.inCell.toList)
 
-example : (match reset staleOP 3 2 (some [[2], [0, 1]]) with | .ok r => some (obs r) | _ => none)
-    = some ([2, 0, 1], [1, 3], [0, 0], [0], [], 0, 0, [1, 1, 0]) := by rfl
-example : (match newOrderedPartition 3 2 (some [[2], [0, 1]]) with | .ok (some r) => some (obs r) | _ => none)
-    = some ([2, 0, 1], [1, 3], [0, 0], [0], [], 0, 0, [1, 1, 0]) := by rfl
 example : (match reset staleOP 3 2 none with | .ok r => some (obs r) | _ => none)
     = some ([0, 1, 2], [3], [0], [0], [], 0, 0, [0, 0, 0]) := by rfl
-/-- the hypotheses of `reset_eq_new` are satisfiable (with stale contents) -/
-example : ∃ opN opR, newOrderedPartition 3 2 (some [[2], [0, 1]]) = .ok (some opN) ∧
-    reset staleOP 3 2 (some [[2], [0, 1]]) = .ok opR ∧ opR.inCell.toList = opN.inCell.toList := by
-  obtain ⟨opN, opR, h1, h2, _, _, _, _, _, _, _, h3, _⟩ :=
-    reset_eq_new (n := 3) (m := 2) (vc := some [[2], [0, 1]]) staleOP (by decide) ⟨by decide, by decide⟩
+/-- the hypotheses of `reset_eq_new` are satisfiable (stale contents, unsorted class `[1, 0]`); `List.mergeSort` does not
+reduce by `rfl`, so the concrete vertex order is read off the theorems -/
+example : ∃ opN opR, newOrderedPartition 3 2 (some [[2], [1, 0]]) = .ok (some opN) ∧
+    reset staleOP 3 2 (some [[2], [1, 0]]) = .ok opR ∧ opR.order.toList = [2, 0, 1] ∧
+    opR.binDividers.toList = [1, 3] ∧ opR.inCell.toList = opN.inCell.toList := by
+  have hc : ClassesOK 3 (some [[2], [1, 0]]) := ⟨by decide, by decide⟩
+  obtain ⟨opN, opR, h1, h2, ho, hb, _, _, _, _, _, h3, _⟩ :=
+    reset_eq_new (n := 3) (m := 2) (vc := some [[2], [1, 0]]) staleOP (by decide) hc
       (by decide) (by decide) (by decide) (by decide) (by decide) (by decide)
-  exact ⟨opN, opR, h1, h2, h3⟩
+  obtain ⟨opN', h1', _, _, _, _, _, _, _, _, _, _, _, _, ho', hb'⟩ := newOrderedPartition_inv (n := 3) (m := 2) (by decide) hc
+  rw [h1] at h1'
+  obtain rfl : opN = opN' := Option.some.inj (Outcome.ok.inj h1')
+  refine ⟨opN, opR, h1, h2, ?_, ?_, h3⟩
+  · rw [ho, ho']
+    simp [sortNat, List.mergeSort, List.MergeSort.Internal.splitInTwo]
+  · rw [hb, hb']; rfl
 
 theorem reset_inv {n m : Nat} {vc : Classes} (op : OP) (hn : 0 < n) (hc : ClassesOK n vc)
     (c1 : n ≤ op.order.data.size) (c2 : n ≤ op.inCell.data.size) (c3 : n ≤ op.binDividers.data.size)
-    (c4 : n ≤ op.binAges.data.size) (c5 : 1 ≤ op.binsToCheck.data.size) (c6 : m ≤ op.value.data.size) :
+    (c4 : n ≤ op.binAges.data.size) (c5 : n ≤ op.binsToCheck.data.size) (c6 : m ≤ op.value.data.size) :
     ∃ opR, reset op n m vc = .ok opR ∧ PartInv n opR ∧ AgeInv opR ∧ opR.age = 0 ∧ opR.spl = 0 ∧
-      opR.value.len = 0 ∧ opR.binsToCheck.toList = [0] := by
+      opR.value.len = 0 ∧ opR.binsToCheck.toList = (List.range opR.binDividers.len).map Int.ofNat := by
   obtain ⟨opR, hR, sR, _⟩ := reset_spec (m := m) op hn hc c1 c2 c3 c4 c5 c6
   obtain ⟨hp, ha⟩ := sR.partInv hn hc
-  exact ⟨opR, hR, hp, ha, sR.age, sR.spl, sR.value, sR.btc⟩
+  exact ⟨opR, hR, hp, ha, sR.age, sR.spl, sR.value, sR.btc'⟩
 
 theorem reset_panics_small_n (op : OP) (n m : Nat) (vc : Classes) (h : op.order.data.size < n) :
     reset op n m vc = .panic := by
